@@ -357,6 +357,10 @@ func buildChain(walDir string) (*chain, error) {
 		}
 		stCopy.Save()
 		st = stCopy
+		if g := cs.VerifWALGroup(); g != nil {
+			g.Stop() // its size-check ticker must be dead before the directory goes away
+			g.Head.Close()
+		}
 
 		c.blocks[h] = block
 		c.blockBytes[h] = wire.BinaryBytes(block)
